@@ -1282,6 +1282,46 @@ func ruleR25(c *Ctx) {
 					})
 				}
 				if !atomicMod {
+					// read-only in the closures — but does the creating function go on writing it for the next
+					// activation? A container declared outside the loop that creates the closures and stored into
+					// inside that loop is shared by the closures of every earlier iteration, which read it from the
+					// tokens' goroutines while the loop writes it.
+					switch v.Type().Underlying().(type) {
+					case *types.Map, *types.Slice:
+					default:
+						continue
+					}
+					var lp ast.Node
+					for l := range lits {
+						if x := innermostLoop(p, l.Lit); x != nil && !(v.Pos() >= x.Pos() && v.Pos() < x.End()) {
+							lp = x
+						}
+					}
+					if lp == nil {
+						continue
+					}
+					var store ast.Node
+					inspectNoLit(lp, func(z ast.Node) bool {
+						as, ok := z.(*ast.AssignStmt)
+						if !ok || store != nil {
+							return true
+						}
+						for _, l := range as.Lhs {
+							e := unparen(l)
+							if ix, isIx := e.(*ast.IndexExpr); isIx {
+								e = unparen(ix.X)
+							}
+							if id, isId := e.(*ast.Ident); isId && in.Uses[id] == types.Object(v) {
+								store = as
+							}
+						}
+						return true
+					})
+					if store == nil {
+						continue
+					}
+					n++
+					c.Bad(f, store, "captured local "+v.Name()+" outlives the activation", "a container that the action closures of one activation read from the tokens' goroutines must belong to that activation: declared outside the loop and filled inside it, it is written for the next token while the closures of the previous one still read it (data race, and the earlier activation sees the later one's channels)", fmt.Sprintf("%s is declared outside the loop at %s and stored into at %s while closures created in earlier iterations read it", v.Name(), c.pos(posNode(v.Pos())), c.pos(store)))
 					continue
 				}
 				n++
